@@ -4,6 +4,7 @@ import Driver.CmdData
 import Driver.CmdSched
 import Driver.CmdExec
 import Driver.CmdAcct
+import Driver.CmdMisc
 /-! Command table of the replay driver (model instantiated at `Float`). -/
 namespace Driver
 open RQ.F
@@ -47,6 +48,9 @@ def dispatch (toks : List String) : String :=
   | some r => r
   | none =>
   match cmdAcct toks with
+  | some r => r
+  | none =>
+  match cmdMisc toks with
   | some r => r
   | none => "ERR unknown-command"
 
